@@ -225,3 +225,124 @@ Proof.
       * rewrite vupd_same. intros [[E1 E2]|[E1 E2]]; congruence.
       * rewrite vupd_other by exact Hmi. apply (Hold m A B).
 Qed.
+
+(* ---------- one accepted swap keeps the invariant and every degree ---------- *)
+Lemma step_LI n k R i j it c d i' j' m0 :
+  LI n k R i j -> (it < k)%nat -> (m0 < k)%nat -> m0 <> it ->
+  (c < n)%nat -> (d < n)%nat ->
+  R c d = 1 -> R c (i it) = 0 -> R c (j it) = 0 -> R d (i it) = 0 -> R d (j it) = 0 ->
+  ((i m0 = c /\ j m0 = d) \/ (i m0 = d /\ j m0 = c)) ->
+  i' it = i it -> j' it = c ->
+  ((i' m0 = d /\ j' m0 = j it) \/ (i' m0 = j it /\ j' m0 = d)) ->
+  (forall m, m <> it -> m <> m0 -> i' m = i m /\ j' m = j m) ->
+  LI n k (rbu_swap R (i it) (j it) c d) i' j' /\
+  (forall x, (x < n)%nat -> offdeg n (rbu_swap R (i it) (j it) c d) x = offdeg n R x).
+Proof.
+  intros HLI Hit Hm0 Hne Hc Hd Hcd1 Hca Hcb Hda Hdb Em0 Ei Ej Em0' Hoth.
+  destruct HLI as [[Hsym H01 Hdiag] Hedge Hdist Hall].
+  destruct (Hedge it Hit) as (Ha & Hb & Hab1).
+  remember (i it) as a eqn:Ea. remember (j it) as b eqn:Eb.
+  assert (Hab: a <> b) by (intros E; rewrite E, Hdiag in Hab1 by exact Hb; exact (SENT_not1 Hab1)).
+  assert (Hac: a <> c) by (intros E; rewrite <- E, Hdiag in Hca by exact Ha; exact (SENT_not0 Hca)).
+  assert (Had: a <> d) by (intros E; rewrite <- E, Hdiag in Hda by exact Ha; exact (SENT_not0 Hda)).
+  assert (Hbc: b <> c) by (intros E; rewrite <- E, Hdiag in Hcb by exact Hb; exact (SENT_not0 Hcb)).
+  assert (Hbd: b <> d) by (intros E; rewrite <- E, Hdiag in Hdb by exact Hb; exact (SENT_not0 Hdb)).
+  assert (Hcd: c <> d) by (intros E; rewrite <- E, Hdiag in Hcd1 by exact Hc; exact (SENT_not1 Hcd1)).
+  assert (Hadm: rbu_admissible R a b c d = true).
+  { unfold rbu_admissible. rewrite Hab1, Hcd1, Hca, Hcb, Hda, Hdb. reflexivity. }
+  destruct (rbu_step R a b c d Hab Hac Had Hbc Hbd Hcd Hsym Hadm n Ha Hb Hc Hd) as (S1 & _ & S3 & S4).
+  pose proof (rbu_swap_cases R a b c d) as Cases.
+  set (R' := rbu_swap R a b c d) in *.
+  assert (Rac: R a c = 0) by (rewrite Hsym; exact Hca).
+  assert (Rbc: R b c = 0) by (rewrite Hsym; exact Hcb).
+  assert (Rad: R a d = 0) by (rewrite Hsym; exact Hda).
+  assert (Rbd: R b d = 0) by (rewrite Hsym; exact Hdb).
+  assert (Rba: R b a = 1) by (rewrite Hsym; exact Hab1).
+  assert (Rdc: R d c = 1) by (rewrite Hsym; exact Hcd1).
+  (* an entry other than it, m0 is none of the eight touched cells *)
+  assert (Hfree: forall m, (m < k)%nat -> m <> it -> m <> m0 ->
+            ~ cut a b c d (i m) (j m) /\ ~ put a b c d (i m) (j m)).
+  { intros m Hm M1 M2. destruct (Hedge m Hm) as (_ & _ & V).
+    destruct (Hdist m it Hm Hit M1) as [D1 D2]. rewrite <- Ea, <- Eb in D1, D2.
+    destruct (Hdist m m0 Hm Hm0 M2) as [D3 D4].
+    split.
+    - unfold cut. intros [[E1 E2]|[[E1 E2]|[[E1 E2]|[E1 E2]]]].
+      + apply D1; split; assumption.
+      + apply D2; split; assumption.
+      + destruct Em0 as [[F1 F2]|[F1 F2]]; [apply D3|apply D4]; split; congruence.
+      + destruct Em0 as [[F1 F2]|[F1 F2]]; [apply D4|apply D3]; split; congruence.
+    - unfold put. intros [[E1 E2]|[[E1 E2]|[[E1 E2]|[E1 E2]]]]; rewrite E1, E2 in V; congruence. }
+  split; [constructor; [constructor|..]|].
+  - exact S3.
+  - intros x y Hx Hy Hxy. destruct (Cases x y Hab Hac Had Hbc Hbd Hcd) as [[_ E]|[[_ E]|(_ & _ & E)]]; rewrite E; auto.
+  - intros x Hx. rewrite S4. apply Hdiag; exact Hx.
+  - (* li_edge *)
+    intros m Hm. destruct (Nat.eq_dec m it) as [->|M1]; [|destruct (Nat.eq_dec m m0) as [->|M2]].
+    + rewrite Ei, Ej. split; [exact Ha|]. split; [exact Hc|].
+      destruct (Cases a c Hab Hac Had Hbc Hbd Hcd) as [[C _]|[[_ E]|(_ & C & _)]]; [|exact E|].
+      * exfalso. unfold cut in C. intuition congruence.
+      * exfalso. apply C. unfold put. tauto.
+    + destruct Em0' as [[E1 E2]|[E1 E2]]; rewrite E1, E2.
+      * split; [exact Hd|]. split; [exact Hb|].
+        destruct (Cases d b Hab Hac Had Hbc Hbd Hcd) as [[C _]|[[_ E]|(_ & C & _)]]; [|exact E|].
+        -- exfalso. unfold cut in C. intuition congruence.
+        -- exfalso. apply C. unfold put. tauto.
+      * split; [exact Hb|]. split; [exact Hd|].
+        destruct (Cases b d Hab Hac Had Hbc Hbd Hcd) as [[C _]|[[_ E]|(_ & C & _)]]; [|exact E|].
+        -- exfalso. unfold cut in C. intuition congruence.
+        -- exfalso. apply C. unfold put. tauto.
+    + destruct (Hoth m M1 M2) as [E1 E2]. rewrite E1, E2.
+      destruct (Hedge m Hm) as (A & B & V). split; [exact A|]. split; [exact B|].
+      destruct (Hfree m Hm M1 M2) as [NC NP].
+      destruct (Cases (i m) (j m) Hab Hac Had Hbc Hbd Hcd) as [[C _]|[[C _]|(_ & _ & E)]]; try contradiction.
+      rewrite E. exact V.
+  - (* li_dist *)
+    assert (Hnew: forall m u v, (m < k)%nat -> m <> it -> m <> m0 -> put a b c d u v ->
+              ~ (i' m = u /\ j' m = v)).
+    { intros m u v Hm M1 M2 P [E1 E2]. destruct (Hoth m M1 M2) as [F1 F2].
+      destruct (Hfree m Hm M1 M2) as [_ NP]. apply NP. rewrite <- F1, <- F2, E1, E2. exact P. }
+    assert (Hit_m0: ~ (i' it = i' m0 /\ j' it = j' m0) /\ ~ (i' it = j' m0 /\ j' it = i' m0)).
+    { rewrite Ei, Ej. destruct Em0' as [[E1 E2]|[E1 E2]]; rewrite E1, E2; split; intros [X Y]; congruence. }
+    intros m m' Hm Hm' Hmm.
+    destruct (Nat.eq_dec m it) as [M1|M1]; [|destruct (Nat.eq_dec m m0) as [M2|M2]];
+    (destruct (Nat.eq_dec m' it) as [M1'|M1']; [|destruct (Nat.eq_dec m' m0) as [M2'|M2']]).
+    + congruence.
+    + subst m m'. exact Hit_m0.
+    + subst m. rewrite Ei, Ej. split; intros [X Y].
+      * apply (Hnew m' a c Hm' M1' M2'); [unfold put; tauto|split; congruence].
+      * apply (Hnew m' c a Hm' M1' M2'); [unfold put; tauto|split; congruence].
+    + subst m m'. destruct Hit_m0 as [X Y]. split; intros [U V]; [apply X|apply Y]; split; congruence.
+    + congruence.
+    + subst m. destruct Em0' as [[E1 E2]|[E1 E2]]; rewrite E1, E2; split; intros [X Y].
+      * apply (Hnew m' d b Hm' M1' M2'); [unfold put; tauto|split; congruence].
+      * apply (Hnew m' b d Hm' M1' M2'); [unfold put; tauto|split; congruence].
+      * apply (Hnew m' b d Hm' M1' M2'); [unfold put; tauto|split; congruence].
+      * apply (Hnew m' d b Hm' M1' M2'); [unfold put; tauto|split; congruence].
+    + subst m'. rewrite Ei, Ej. split; intros [X Y].
+      * apply (Hnew m a c Hm M1 M2); [unfold put; tauto|split; congruence].
+      * apply (Hnew m c a Hm M1 M2); [unfold put; tauto|split; congruence].
+    + subst m'. destruct Em0' as [[E1 E2]|[E1 E2]]; rewrite E1, E2; split; intros [X Y].
+      * apply (Hnew m d b Hm M1 M2); [unfold put; tauto|split; congruence].
+      * apply (Hnew m b d Hm M1 M2); [unfold put; tauto|split; congruence].
+      * apply (Hnew m b d Hm M1 M2); [unfold put; tauto|split; congruence].
+      * apply (Hnew m d b Hm M1 M2); [unfold put; tauto|split; congruence].
+    + destruct (Hoth m M1 M2) as [F1 F2]. destruct (Hoth m' M1' M2') as [G1 G2].
+      rewrite F1, F2, G1, G2. apply Hdist; assumption.
+  - (* li_all *)
+    intros u v Hu Hv V.
+    destruct (Cases u v Hab Hac Had Hbc Hbd Hcd) as [[_ E]|[[P _]|(NC & NP & E)]].
+    + rewrite E in V. discriminate.
+    + unfold put in P. destruct P as [[E1 E2]|[[E1 E2]|[[E1 E2]|[E1 E2]]]]; subst u v.
+      * exists it. split; [exact Hit|]. left. split; assumption.
+      * exists it. split; [exact Hit|]. right. split; assumption.
+      * exists m0. split; [exact Hm0|]. destruct Em0' as [[E1 E2]|[E1 E2]]; [right|left]; split; assumption.
+      * exists m0. split; [exact Hm0|]. destruct Em0' as [[E1 E2]|[E1 E2]]; [left|right]; split; assumption.
+    + rewrite E in V. destruct (Hall u v Hu Hv V) as (m & Hm & Em).
+      assert (M1: m <> it).
+      { intros ->. rewrite <- Ea, <- Eb in Em. apply NC. unfold cut. destruct Em as [[X Y]|[X Y]]; subst u v; tauto. }
+      assert (M2: m <> m0).
+      { intros ->. apply NC. unfold cut.
+        destruct Em as [[X Y]|[X Y]]; destruct Em0 as [[F1 F2]|[F1 F2]]; subst u v; rewrite F1, F2; tauto. }
+      exists m. split; [exact Hm|]. destruct (Hoth m M1 M2) as [F1 F2]. rewrite F1, F2. exact Em.
+  - intros x Hx. rewrite !offdeg_outdeg by exact Hx. rewrite S1, S4. reflexivity.
+Qed.
